@@ -132,6 +132,23 @@ func genC01(c *Ctx, emit func(class, op string)) {
 		get("zero-length", append(g, byte(cc>>16), byte(cc>>8), byte(cc)))
 	}
 	get("empty", []byte{})
+	// a start byte followed by a zero length field, inside streams (any type bits after it)
+	for i := 0; i < c.N(40, 400); i++ {
+		typ := pickType(r)
+		z := []byte{0xd3, 0, 0, byte(typ >> 4), byte(typ << 4)}
+		var bs []byte
+		if r.Intn(2) == 0 {
+			bs = append(bs, randFrame(r, 1+r.Intn(30))...)
+		}
+		bs = append(bs, z...)
+		switch r.Intn(3) {
+		case 0:
+			bs = append(bs, randFrame(r, 1+r.Intn(30))...)
+		case 1:
+			bs = append(bs, junkRun(r, 1+r.Intn(10))...)
+		}
+		emit("stream-zero-length-leader", "stream "+defaultStart+" "+hx(bs))
+	}
 	// streams: mixtures of frames, corrupted frames, junk with embedded 0xD3
 	for i := 0; i < c.N(150, 1500); i++ {
 		var bs []byte
@@ -226,6 +243,14 @@ func genC02(c *Ctx, emit func(class, op string)) {
 			st("d3-in-junk+frame", append(append([]byte{}, x...), randFrame(r, 1+r.Intn(20))...))
 			st("frame+d3-in-junk", append(randFrame(r, 1+r.Intn(20)), x...))
 		}
+	}
+	for i := 0; i < c.N(30, 300); i++ {
+		typ := pickType(r)
+		bs := append(junkRun(r, r.Intn(4)), 0xd3, 0, 0, byte(typ>>4), byte(typ<<4))
+		if r.Intn(2) == 0 {
+			bs = append(bs, randFrame(r, 1+r.Intn(30))...)
+		}
+		st("zero-length-leader", bs)
 	}
 	for i := 0; i < c.N(120, 1500); i++ {
 		var bs []byte
